@@ -171,7 +171,10 @@ def handleIn (c : Cur) : Option String := do
         | .outOfFuel => "3"
       pure (m ++ " | " ++ b2s (WF fs d main) ++ " | " ++ showToks (inlineToks false fs d main)
         ++ " | " ++ showToks (inlineToks true fs d main)
-        ++ " | " ++ b2s (endLastLines main && endLastFS fs))
+        ++ " | " ++ b2s (endLastLines main && endLastFS fs)
+        -- TeX on the program with the rest of every \endinput line deleted (theorem
+        -- endinput_is_tex_on_truncated_program): must equal the third field
+        ++ " | " ++ showToks (inlineToks true (truncFS fs) d (truncLines main)))
 
 def showR (st : RSt) : String :=
   (match st.status with
